@@ -176,16 +176,62 @@ def _mk_root(EoReader, data, s):
     return EoReader(pre + data + post).slice(PAD, len(data))
 
 
-def _fork(o):
-    """An independent reader (or model) in the same state: a shallow copy of the instance's own attributes,
-    wherever they live (instance dict and/or __slots__)."""
+def _is_part(v):
+    """Is v a mutable part of the reader's own state (an object of a class of the library, a list, a dict)?
+    Buffers (bytes, bytearray, memoryview) are the data being read and stay shared, as they are between a
+    reader and its slices; tuples, numbers and the like are immutable."""
+    if isinstance(v, (list, dict, set)):
+        return True
+    return (getattr(type(v), "__module__", "") or "").startswith("eolib") and not isinstance(v, (tuple, int, str, bytes))
+
+
+def _attrs(o):
     d = getattr(o, "__dict__", None)
-    if d is not None and not hasattr(type(o), "__slots__"):
+    if d is not None:
+        yield from d.items()
+    for klass in type(o).__mro__:
+        for name in getattr(klass, "__slots__", ()) or ():
+            if name in ("__dict__", "__weakref__"):
+                continue
+            if name.startswith("__") and not name.endswith("__"):
+                name = "_" + klass.__name__.lstrip("_") + name
+            try:
+                yield name, object.__getattribute__(o, name)
+            except AttributeError:
+                pass
+
+
+def _fork(o):
+    """An independent reader (or model) in the same state: the instance's own attributes are copied, wherever
+    they live (instance dict and/or __slots__), and so are the library objects, lists and dicts they hold
+    (a reader may keep its cursor in a helper object); the data buffer stays shared."""
+    d = getattr(o, "__dict__", None)
+    if d is not None and not hasattr(type(o), "__slots__") and not any(_is_part(v) for v in d.values()):
         n = object.__new__(type(o))
         n.__dict__.update(d)
         return n
-    import copy
-    return copy.copy(o)
+    return _deep_fork(o, {})
+
+
+def _deep_fork(v, memo):
+    if id(v) in memo:
+        return memo[id(v)]
+    if isinstance(v, list):
+        n = memo[id(v)] = []
+        n.extend(_deep_fork(x, memo) if _is_part(x) else x for x in v)
+        return n
+    if isinstance(v, dict):
+        n = memo[id(v)] = {}
+        for k, x in v.items():
+            n[k] = _deep_fork(x, memo) if _is_part(x) else x
+        return n
+    if isinstance(v, set):
+        n = memo[id(v)] = set(v)
+        return n
+    n = memo[id(v)] = object.__new__(type(v))
+    for name, x in _attrs(v):
+        object.__setattr__(n, name, _deep_fork(x, memo) if _is_part(x) else x)
+    return n
 
 
 def _show(v):
